@@ -166,7 +166,7 @@ func flipCase(s string) string {
 
 func TestC13(t *testing.T) {
 	hx.Main(t, "C13", func(r *hx.Run) {
-		r.Rule = "clean workflow from the workflow-syntax model (optionally with 1-3 malformed placeholders seeded into sibling values) x EVERY fixed-key mapping x {foreign key: fresh name | key of another section | letter-case variant of an own key; duplicate of EVERY existing key in turn; removal of each mandatory key} and EVERY user-named mapping x {duplicate: same spelling | other letter case where names are case-insensitive}. Oracle from the model: syntax-check diagnostic exactly at the inserted key (at the item for schedule elements), at the repetition for duplicates, >=1 new syntax-check diagnostic for a removed mandatory key, and all diagnostics of the base still present. Non-trivial: every mutation; distinct = (section, mutation kind, key, base clean or seeded)."
+		r.Rule = "clean workflow from the workflow-syntax model (optionally with 1-3 malformed placeholders seeded into sibling values) x EVERY fixed-key mapping x {foreign key: fresh name | key of another section | letter-case variant of an own key | fresh name after a key that is broken in itself (empty or a sequence); duplicate of EVERY existing key in turn; removal of each mandatory key} and EVERY user-named mapping x {duplicate: same spelling | other letter case where names are case-insensitive}. Oracle from the model: syntax-check diagnostic exactly at the inserted key (at the item for schedule elements), at the repetition for duplicates, >=1 new syntax-check diagnostic for a removed mandatory key, and all diagnostics of the base still present. Non-trivial: every mutation; distinct = (section, mutation kind, key, base clean or seeded)."
 		r.Assumptions = []string{"fixed key names are case-sensitive (GitHub's syntax), so a letter-case variant is a foreign key", "case-insensitive user-named mappings asserted: jobs, inputs, secrets, outputs, with, matrix rows; env/permissions/services only for same-spelling duplicates"}
 		others := allSectionKeys()
 		secCov := map[string]int64{}
@@ -253,6 +253,35 @@ func TestC13(t *testing.T) {
 						if sec.Name == "schedule-item" {
 							c.Line, c.Col = m.Line, m.Col
 						}
+						m.Keys = append(m.Keys[:idx:idx], m.Keys[idx+1:]...)
+						m.Vals = append(m.Vals[:idx:idx], m.Vals[idx+1:]...)
+						if !run(c) {
+							return
+						}
+					}
+					// a key that is broken in itself (empty, a sequence, null) followed by a foreign key: the
+					// broken one must not end the examination of the mapping
+					if sec.Name != "schedule-item" {
+						var bad *ye.Node
+						switch mi % 3 {
+						case 0:
+							bad = ye.Q("", ye.Double)
+						case 1:
+							bad = &ye.Node{Kind: ye.Scalar, Raw: "[a, b]"}
+						default:
+							bad = ye.Q("", ye.Single)
+						}
+						idx := (mi * 7) % (len(m.Keys) + 1)
+						fk := ye.S("zzafterbroken")
+						at2 := idx + 1 + (mi*3)%(len(m.Keys)-idx+1)
+						m.Keys = append(m.Keys[:idx:idx], append([]*ye.Node{bad}, m.Keys[idx:]...)...)
+						m.Vals = append(m.Vals[:idx:idx], append([]*ye.Node{ye.S("v")}, m.Vals[idx:]...)...)
+						m.Keys = append(m.Keys[:at2:at2], append([]*ye.Node{fk}, m.Keys[at2:]...)...)
+						m.Vals = append(m.Vals[:at2:at2], append([]*ye.Node{ye.S("v")}, m.Vals[at2:]...)...)
+						mut := ye.Emit(w.Root, lay)
+						c := &c13Case{Mutated: mut, Kind: "foreign", Section: sec.Name + "(after-broken-key)", Key: "zzafterbroken", Line: fk.Line, Col: fk.Col}
+						m.Keys = append(m.Keys[:at2:at2], m.Keys[at2+1:]...)
+						m.Vals = append(m.Vals[:at2:at2], m.Vals[at2+1:]...)
 						m.Keys = append(m.Keys[:idx:idx], m.Keys[idx+1:]...)
 						m.Vals = append(m.Vals[:idx:idx], m.Vals[idx+1:]...)
 						if !run(c) {
